@@ -212,6 +212,7 @@ mod imp {
         }
         doc.push_str(&format!("<root a=\"{}\">{}<!--{}--><![CDATA[{}]]><?{}?><child b='{}'/>{}</root>", attr, text, comment, cdata, pi, attr2, text2));
         let nonascii = !doc.is_ascii();
+        let long_payload = c.parts.iter().any(|p| p.len() >= 500);
 
         if c.from_str {
             // an encoding fixed by constructing the reader from a string is not overridden
@@ -410,6 +411,9 @@ mod imp {
         }
         if !enc.is_single_byte() && !is_utf8 {
             v.classes.push("multi-byte-legacy");
+            if long_payload {
+                v.classes.push("multi-byte-legacy-payload->=1024-bytes");
+            }
         }
         v
     }
@@ -433,8 +437,11 @@ mod imp {
                 let enc = names2[(i / per) as usize];
                 let mut r = crate::engine::SplitMix64::derive(seed, "c17", i);
                 let mut parts: [Vec<u16>; 7] = Default::default();
+                // one document in thirty has long payloads (600..1600 characters: beyond 1024 / 2048 /
+                // 4096 encoded bytes, with every alignment of the multi-byte characters)
+                let long = r.chance(1, 30);
                 for p in parts.iter_mut() {
-                    let n = r.below(6);
+                    let n = if long && r.chance(1, 2) { 600 + r.below(1000) } else { r.below(6) };
                     *p = (0..n).map(|_| r.next() as u16).collect();
                 }
                 let mode = r.below(10);
@@ -446,7 +453,7 @@ mod imp {
         let strat = move || {
             let names3 = names3.clone();
             Box::new(
-                (prop::sample::select(names3), prop::array::uniform7(prop::collection::vec(any::<u16>(), 0..6)), any::<bool>(), any::<bool>(), prop::option::of(0u8..8), 0u8..9, prop::bool::weighted(0.1))
+                (prop::sample::select(names3), prop::array::uniform7(prop_oneof![60 => prop::collection::vec(any::<u16>(), 0..6), 1 => prop::collection::vec(any::<u16>(), 500..1400)]), any::<bool>(), any::<bool>(), prop::option::of(0u8..8), 0u8..9, prop::bool::weighted(0.1))
                     .prop_map(|(enc, parts, decl, bom, piece, m, from_str)| Case { encoding: enc.to_string(), parts, decl, bom, piece, malformed: if m < 5 { m } else { 0 }, from_str }),
             )
         };
